@@ -68,8 +68,7 @@ func leakSig(bad string) string {
 // closeBlocked: calls are blocked in Recv and Send (where the pattern can block); a
 // concurrent Close must make all of them return, return itself, and leave nothing behind.
 func closeBlocked(k *kinds.Kind, useCtx bool) {
-	x := k.Open("c10", true, true)
-	_ = x.S.SetOption(mangos.OptionWriteQLen, 1)
+	x := k.OpenQ("c10", true, 1)
 	var ctx mangos.Context
 	if useCtx {
 		c, err := x.S.OpenContext()
